@@ -1,11 +1,13 @@
-(* Bundle/BuilderRefuted.v — concrete histories (checked by vm_compute on the mirrors, replayed on the implementation
-   by driver/props/C10.py) on which clauses of C10 FAIL in the faithful model:
+(* Bundle/BuilderRefuted.v — concrete histories (checked by vm_compute on the mirrors) on which clauses of C10 FAIL:
 
-   overflow (candidate finding F-C10-1): a declared cost near 2^64 makes the u64 sums of add_spend_bundles overflow.
+   overflow (finding F-C10-1, FIXED in /repo by "fix: block builders reject a declared cost above the block limit before
+     summing"): DOCUMENTATION ONLY — [i_run]/[c_run] below use the PRE-FIX step functions [i_step_prefix]/[c_step_prefix]
+     (guard = false).  [*_fixed_rejects] shows the same histories on the current mirrors.
+     Before the fix a declared cost near 2^64 made the u64 sums of add_spend_bundles overflow.
      Release build (wrap-around): the attempt is ACCEPTED although its declared cost alone exceeds the block limit,
      block_cost wraps, and finalize returns a cost far below 20 + the declared costs (here: 0 resp. 60000).
      Overflow-checking build: add_spend_bundles panics.
-   initial estimate (candidate finding F-C10-2): the compressed builder starts with byte_cost = 0 although the
+   initial estimate (known finding F-C10-2): the compressed builder starts with byte_cost = 0 although the
      serializer already holds the three wrapper bytes, so before the first serialized add cost() = 20 while
      finalize returns 20 + 5 * cost_per_byte. *)
 From ChiaV.Base Require Import Bytes.
@@ -17,9 +19,9 @@ Open Scope N_scope.
 Definition real_cfg (m : amode) : bcfg := {| c_mode := m; c_cpb := 12000; c_max := 11000000000 |}.
 
 Definition i_run (m : amode) (h : list (iattempt xsig)) :=
-  run_hist (i_step xsig xsig_one xsig_mul (real_cfg m)) (i_init xsig xsig_one) h.
+  run_hist (i_step_prefix xsig xsig_one xsig_mul (real_cfg m)) (i_init xsig xsig_one) h.
 Definition c_run (m : amode) (h : list (cattempt xsig N)) :=
-  run_hist (c_step xsig xsig_one xsig_mul xser N x_add x_restore x_size (real_cfg m)) (c_init xsig xsig_one xser x_init) h.
+  run_hist (c_step_prefix xsig xsig_one xsig_mul xser N x_add x_restore x_size (real_cfg m)) (c_init xsig xsig_one xser x_init) h.
 
 (* one call, no bundles, declared cost 2^64 - 132020 (132020 = 20 + WRAPPER_VBYTES * 12000) *)
 Definition i_witness : list (iattempt xsig) := [ {| ia_bundles := []; ia_cost := 2 ^ 64 - 132020 |} ].
@@ -53,3 +55,11 @@ Theorem compressed_initial_estimate_refuted :
   forall m, c_cost xsig xser (real_cfg m) (c_init xsig xsig_one xser x_init) = Some 20 /\
             exists g s, c_finalize xsig xser x_size x_finish x_output (real_cfg m) (c_init xsig xsig_one xser x_init) = CFOk xsig g s 60020.
 Proof. intros m; destruct m; (split; [vm_compute; reflexivity|eexists; eexists; vm_compute; reflexivity]). Qed.
+
+(* the same witnesses on the CURRENT mirrors: rejected, nothing added, in both builds *)
+Theorem overflow_witnesses_fixed_rejected : forall m,
+  snd (run_hist (i_step xsig xsig_one xsig_mul (real_cfg m)) (i_init xsig xsig_one) i_witness) = [RRejected false] /\
+  ib_items xsig (fst (run_hist (i_step xsig xsig_one xsig_mul (real_cfg m)) (i_init xsig xsig_one) i_witness)) = [] /\
+  snd (run_hist (c_step xsig xsig_one xsig_mul xser N x_add x_restore x_size (real_cfg m)) (c_init xsig xsig_one xser x_init) c_witness)
+    = [RRejected false].
+Proof. intros m; destruct m; vm_compute; auto. Qed.
